@@ -67,7 +67,14 @@ def _const_dict_read(cfg: 'CFG', sub: ast.Subscript) -> bool:
     """`d['k']` where d is a variable (of this function, an enclosing one or the module) bound once to a dict display
     that has the constant key 'k', and nothing anywhere in the module removes entries from a variable of that name:
     the read cannot raise KeyError (write-only statistics counters and the like)."""
-    if not (isinstance(sub.value, ast.Name) and isinstance(sub.slice, ast.Constant) and isinstance(sub.slice.value, str)):
+    key = sub.slice
+    if isinstance(key, ast.Name):
+        # the parameter of a helper being inlined, bound to a literal by the call (`_count('hits')` -> `stats[name] += 1`)
+        for c in reversed(getattr(cfg, 'ctx', []) or []):
+            if getattr(c, 'kind', None) == 'inline' and key.id in getattr(c, 'binding', {}):
+                key = c.binding[key.id]
+                break
+    if not (isinstance(sub.value, ast.Name) and isinstance(key, ast.Constant) and isinstance(key.value, str)):
         return False
     name = sub.value.id
     sc = cfg.scope
@@ -86,7 +93,7 @@ def _const_dict_read(cfg: 'CFG', sub: ast.Subscript) -> bool:
     if len(vals) != 1 or not isinstance(vals[0], ast.Dict):
         return False
     keys = [k.value for k in vals[0].keys if isinstance(k, ast.Constant)]
-    if len(keys) != len(vals[0].keys) or sub.slice.value not in keys:
+    if len(keys) != len(vals[0].keys) or key.value not in keys:
         return False
     for x in ast.walk(cfg.scope.unit.tree):
         if isinstance(x, ast.Attribute) and isinstance(x.value, ast.Name) and x.value.id == name \
@@ -736,6 +743,31 @@ class CFG:
                 self._dispatch_jump(what, tail)
             self.cur = []
 
+    def _exc_path(self, e: ast.AST) -> Optional[str]:
+        """Dotted name of an exception class expression; a module-level name bound in several branches (a version check) to
+        classes that all canonicalise to one class denotes that class."""
+        p0 = self.res.path(e)
+        if model.canon_exc(p0) is not None or not isinstance(e, ast.Name):
+            return p0
+        bs = self.cur_scope.binding_scope(e.id)
+        if bs is None or bs.kind != 'module':
+            return p0
+        vals = []
+        for n in ast.walk(bs.node):
+            if isinstance(n, (ast.FunctionDef, ast.AsyncFunctionDef, ast.ClassDef, ast.Lambda)):
+                continue
+            tg = v = None
+            if isinstance(n, ast.Assign) and len(n.targets) == 1:
+                tg, v = n.targets[0], n.value
+            elif isinstance(n, ast.AnnAssign) and n.value is not None:
+                tg, v = n.target, n.value
+            if isinstance(tg, ast.Name) and tg.id == e.id:
+                vals.append(v)
+        canon = {model.canon_exc(Resolver(bs).path(v)) for v in vals}
+        if vals and None not in canon and len(canon) == 1:
+            return next(iter(canon))
+        return p0
+
     def _s_Try(self, s: ast.Try) -> None:
         old_trys = self._trys
         fin_ctx = None
@@ -745,7 +777,7 @@ class CFG:
         hnodes: List[Tuple[Set[str], Node]] = []
         entry_frontier = self.cur
         for h in s.handlers:
-            classes = model.parse_handler_classes(h.type, self.res.path)
+            classes = model.parse_handler_classes(h.type, self._exc_path)
             uncertain = False
             if classes is None:
                 # class given by a run-time value (`except only as e`): may
